@@ -36,6 +36,14 @@ def g_pos(r, unc=0.2):
     return [r.choice(Q) * 4, r.choice(Q) * 2]
 
 
+def g_orient(r):
+    return r.choice([[0.1, 0.4], [-0.3, 0.2]]) if r.random() < 0.12 else r.choice([0.0, 0.5, -2.0, 3.1, 0.4, -1.0])
+
+
+def g_vel(r):
+    return r.choice([[1.0, 4.0], [20.0, 30.0]]) if r.random() < 0.12 else r.choice([0.0, 1.0, 2.0, 12.0, 20.0])
+
+
 def g_signal(r):
     if r.random() < 0.3:
         return {}
@@ -66,8 +74,7 @@ def g_obstacle(r, oid, role=None, focus=False):
         o = g_obstacle(r, oid, "dynamic")
         n = r.choice([2, 3, 6])
         o.update(type=r.choice(["CAR", "TRUCK", "BUS", "BICYCLE", "TAXI", "PARKED_VEHICLE"]), shape=["rect", 4.5, 2.0, 0.0, 0.0, 0.0],
-                 pred={"kind": "traj", "states": [{"pos": g_pos(r, 0.2), "orient": r.choice([0.0, 0.4, -1.0]),
-                                                  "vel": r.choice([0.0, 2.0, 20.0])} for _ in range(n)]})
+                 pred={"kind": "traj", "states": [{"pos": g_pos(r, 0.2), "orient": g_orient(r), "vel": g_vel(r)} for _ in range(n)]})
         o["sigs"] = [g_signal(r) for _ in range(n)]
         o["sig0"] = g_signal(r)
         return o
@@ -78,15 +85,14 @@ def g_obstacle(r, oid, role=None, focus=False):
         return {"id": oid, "role": role, "pred": g_set_pred(r, r.choice([0, 0, 1, 3, 7])) if r.random() < 0.85 else None}
     t0 = r.choice([0, 0, 0, 1, 2, 5, 9])
     o = {"id": oid, "role": role, "type": r.choice(OBST_TYPES_DYN), "shape": g_obstacle_shape(r),
-         "init": {"t": t0, "pos": g_pos(r, 0.15), "orient": r.choice([0.0, 0.5, -2.0, 3.1]), "vel": r.choice([0.0, 1.0, 12.0])}}
+         "init": {"t": t0, "pos": g_pos(r, 0.15), "orient": g_orient(r), "vel": g_vel(r)}}
     if r.random() < 0.5:
         o["sig0"] = g_signal(r)
     if role == "dynamic":
         k = r.choice(["none", "traj", "traj", "traj", "set", "set"])
         if k == "traj":
             n = r.choice([1, 2, 3, 6])
-            o["pred"] = {"kind": "traj", "states": [{"pos": g_pos(r, 0.1), "orient": r.choice([0.0, 0.4, -1.0]),
-                                                    "vel": r.choice([0.0, 2.0, 20.0])} for _ in range(n)]}
+            o["pred"] = {"kind": "traj", "states": [{"pos": g_pos(r, 0.1), "orient": g_orient(r), "vel": g_vel(r)} for _ in range(n)]}
             if r.random() < 0.5:
                 o["sigs"] = [g_signal(r) for _ in range(r.choice([0, 1, n, n + 1]))]
         elif k == "set":
